@@ -26,13 +26,18 @@ def run(tier, seed):
               'default / centre seeding, DefaultModelInputConverter / TrialToArrayConverter decoding of arbitrary arrays; every suggestion is '
               'checked by an independent membership oracle; refusals must be exceptions; non-trivial = at least 3 suggestions after feedback')
   rep.trusted = ['Coq 8.16.1 kernel + vm_compute', 'equinox stand-in (GP_UCB_PE / GAUSSIAN_PROCESS_BANDIT are never executed)',
-                 'harness/spaces.py membership oracle', 'harness/translate/scalers.py (Python-ast translator, fail-closed)', 'exact rationals instead of float32/float64 in the model']
+                 'harness/spaces.py membership oracle', 'harness/translate/scalers.py and suggdefault.py (Python-ast translators, fail-closed)', 'exact rationals instead of float32/float64 in the model']
   tbroke = None
   try:
     from harness.translate import scalers
     C.write_gen('Gen/Scalers.v', scalers.translate(C.REPO))
   except Exception as e:  # pylint: disable=broad-except
     tbroke = 'translator harness/translate/scalers.py refused converters/core.py: %r' % (e,)
+  try:
+    from harness.translate import suggdefault
+    C.write_gen('Gen/SuggestDefault.v', suggdefault.translate(C.REPO))
+  except Exception as e:  # pylint: disable=broad-except
+    tbroke = ((tbroke or '') + ' translator harness/translate/suggdefault.py refused pythia/suggest_default.py: %r' % (e,)).strip()
   C.standard_proof_step(rep, 'C03')
   broke = ((tbroke or '') + ' ' + (rep.proof_broken or '')).strip() or None
   concrete = False
@@ -223,8 +228,32 @@ def run(tier, seed):
                {'space': meta, 'suggested': {k: v.value for k, v in sg.parameters.items()}})
     except Exception as e:  # pylint: disable=broad-except
       rep.count('seed_with_default_refused_%s' % type(e).__name__)
+  # ---- a declared default value outside the parameter's domain: refused somewhere (factory or seeding), never suggested
+  for kind_, mk_, nm_ in [('double', lambda root: root.add_float_param('x', 0.0, 1.0, default_value=5.0), 'x'),
+                          ('double_log', lambda root: root.add_float_param('x', 0.5, 2.0, default_value=0.25, scale_type=vz.ScaleType.LOG), 'x'),
+                          ('int', lambda root: root.add_int_param('i', 1, 3, default_value=7), 'i'),
+                          ('discrete', lambda root: root.add_discrete_param('d', [1.0, 2.0], default_value=9.0), 'd'),
+                          ('categorical', lambda root: root.add_categorical_param('c', ['a', 'b'], default_value='zzz'), 'c')]:
+    p_ = vz.ProblemStatement()
+    rep.case({'default_outside_domain': kind_}, True)
+    rep.count('default_outside_' + kind_)
+    try:
+      mk_(p_.search_space.root)
+      dflt = {k: v.value for k, v in suggest_default.get_default_parameters(p_.search_space).items()}
+    except (ValueError, TypeError):
+      continue      # refused: fine
+    except Exception as e:  # pylint: disable=broad-except
+      viol('a default value outside the domain made the default seeding raise %s (promised: ValueError)' % type(e).__name__, {'kind': kind_})
+      continue
+    pc_ = p_.search_space.get(nm_)
+    if not pc_.contains(dflt[nm_]):
+      viol('a declared default value outside the domain is handed out as the first suggestion of an empty study',
+           {'kind': kind_, 'suggested': dflt, 'parameter': repr(pc_)[:200]})
   b2, c2 = model_part(rep, tier, r)
   broke = ((broke or '') + ' ' + (b2 or '')).strip() or None
+  from harness import convmodel
+  b3, _ = convmodel.default_cases(rep, tier, r)
+  broke = ((broke or '') + ' ' + (b3 or '')).strip() or None
   concrete = concrete or c2
   C.settle_broken(rep, broke, concrete)
   return rep.finish()
